@@ -206,18 +206,25 @@ def provided (c : AuthCfg) : Option Metadata :=
              | .basic => basicProvide c.username c.password
              | .custom md => md)
 
-/-- `GRPCService`: the metadata cache -/
+/-- `GRPCService`: the metadata cache, and how often the provider has been asked so far -/
 structure Grpc where
   cache : Option Metadata
+  asked : Nat := 0
 deriving Repr
 
-/-- `GRPCService.metadata()` -/
-def Grpc.metadata (g : Grpc) (c : AuthCfg) : Metadata × Grpc :=
+/-- `GRPCService.metadata()`.  `faults i = true`: the provider raises when it is asked for the i-th time (token not
+    available yet, …) — the exception propagates (`none`), nothing is cached, the next call asks again. -/
+def Grpc.metadata (g : Grpc) (c : AuthCfg) (faults : Nat → Bool) : Option Metadata × Grpc :=
   match g.cache with
-  | some md => if metadataCached then (md, g) else (buildMetadata (provided c), g)
+  | some md => (some md, g)
   | none =>
-    let md := buildMetadata (provided c)
-    (md, if metadataCached then { cache := some md } else g)
+    match provided c with
+    | none => let md := buildMetadata none; (some md, if metadataCached then { g with cache := some md } else g)
+    | some p =>
+      if faults g.asked then (none, { g with asked := g.asked + 1 })
+      else
+        let md := buildMetadata (some p)
+        (some md, { cache := if metadataCached then some md else none, asked := g.asked + 1 })
 
 /-- what reaches a stub: the request and the `metadata=` keyword (`none` = the call has no such keyword) -/
 structure Sent (α : Type) where
@@ -231,7 +238,7 @@ inductive Op where
 inductive Wire where
   | polled (c : Sent PPollRequest)
   | pushed (c : Sent PSnapshot)
-  | dropped                       -- conversion failed: nothing sent (snapshot) / poll raised
+  | dropped                       -- conversion failed / the provider raised: nothing sent
 
 def Wire.metadata : Wire → Option (Option Metadata)
   | .polled c => some c.metadata
@@ -239,7 +246,7 @@ def Wire.metadata : Wire → Option (Option Metadata)
   | .dropped => none
 
 /-- one `LongPoll.poll()` / `PushService._push_task(snapshot)` -/
-def step (c : AuthCfg) (g : Grpc) : Op → Wire × Grpc
+def step (c : AuthCfg) (faults : Nat → Bool) (g : Grpc) : Op → Wire × Grpc
   | .poll ts hash res =>
     match convertResource res with
     | none => (.dropped, g)
@@ -247,7 +254,10 @@ def step (c : AuthCfg) (g : Grpc) : Op → Wire × Grpc
       let req : PPollRequest := { ts_nanos := ts, current_hash := hash, resource := some r }
       if req.accepts then
         match pollMetadataArg with
-        | some "self.grpc.metadata()" => let (md, g') := g.metadata c; (.polled ⟨req, some md⟩, g')
+        | some "self.grpc.metadata()" =>
+          match g.metadata c faults with
+          | (some md, g') => (.polled ⟨req, some md⟩, g')
+          | (none, g') => (.dropped, g')
         | _ => (.polled ⟨req, none⟩, g)
       else (.dropped, g)
   | .push s =>
@@ -255,11 +265,37 @@ def step (c : AuthCfg) (g : Grpc) : Op → Wire × Grpc
     | none => (.dropped, g)
     | some m =>
       match sendMetadataArg with
-      | some "self.grpc.metadata()" => let (md, g') := g.metadata c; (.pushed ⟨m, some md⟩, g')
+      | some "self.grpc.metadata()" =>
+        match g.metadata c faults with
+        | (some md, g') => (.pushed ⟨m, some md⟩, g')
+        | (none, g') => (.dropped, g')
       | _ => (.pushed ⟨m, none⟩, g)
 
-def run (c : AuthCfg) : Grpc → List Op → List Wire
+def run (c : AuthCfg) (faults : Nat → Bool) : Grpc → List Op → List Wire
   | _, [] => []
-  | g, op :: ops => let (w, g') := step c g op; w :: run c g' ops
+  | g, op :: ops => let (w, g') := step c faults g op; w :: run c faults g' ops
+
+/-! ### several threads at `metadata()` (poll timer thread, task pool threads)
+
+  `if self._metadata is None: self._metadata = self._build_metadata(); return self._metadata` has two atomic
+  regions per thread: `look` (read the cache; a hit is returned and sent) and `store` (the provider's answer, computed
+  on this thread, is stored and sent).  A schedule is a list of thread ids. -/
+structure Conc where
+  cache : Option Metadata
+  pcs : List Nat                  -- per thread: 0 = before look, 1 = asked the provider, 2 = sent
+  sent : List Metadata
+
+def cstep (c : AuthCfg) (s : Conc) (tid : Nat) : Conc :=
+  match s.pcs[tid]? with
+  | some 0 =>
+    match s.cache with
+    | some md => { s with pcs := s.pcs.set tid 2, sent := s.sent ++ [md] }
+    | none => { s with pcs := s.pcs.set tid 1 }
+  | some 1 =>
+    let md := buildMetadata (provided c)
+    { cache := if metadataCached then some md else s.cache, pcs := s.pcs.set tid 2, sent := s.sent ++ [md] }
+  | _ => s
+
+def crun (c : AuthCfg) (n : Nat) (sched : List Nat) : Conc := sched.foldl (cstep c) ⟨none, List.replicate n 0, []⟩
 
 end Wire
